@@ -48,7 +48,7 @@ Section G.
     intros G Hok Hpr Hs Hny Ht.
     destruct (gi_sub _ _ _ G _ _ _ _ _ Hs) as (tk' & H1 & H2 & H3 & H4).
     assert (tk' = tk) by congruence. subst tk'. split; [|assumption].
-    split; [assumption|]. rewrite H2. split; [assumption|]. split; [|assumption].
+    split; [assumption|]. rewrite H2. split; [assumption|]. split; [|now apply no_yieldto_of].
     destruct Hpr as [?|Hpr]; [now left|right]. rewrite H3. now apply stored_not_low.
   Qed.
 
@@ -126,7 +126,7 @@ Section B.
     pc l = Idle -> lrole l = RWorker p w -> cur l = Some a ->
     In (ESubmit (length (tasks g)) p' pr h t) (glog (fst (pl_tstep cfg (OAct (ASpawn p' pr h)) t g l))).
   Proof.
-    intros Hpc Hr Hc. unfold pl_tstep. rewrite Hpc, Hr, Hc. cbn [act_task].
+    intros Hpc Hr Hc. unfold pl_tstep. rewrite Hpc, Hr, Hc. cbn [act_task is_do_yield].
     destruct (spawn cfg t g p' pr h) as [g1 c1] eqn:E. cbn [fst].
     assert (g1 = fst (spawn cfg t g p' pr h)) by now rewrite E. subst g1. clear E.
     unfold spawn.
@@ -140,7 +140,7 @@ Section B.
     pc l = Idle -> lrole l = RWorker p w -> cur l = Some a ->
     In (ECall lbl (CTask a) t) (glog (fst (pl_tstep cfg (OAct (ACall lbl)) t g l))).
   Proof.
-    intros Hpc Hr Hc. unfold pl_tstep. rewrite Hpc, Hr, Hc. cbn [act_task fst log_ev glog]. now left.
+    intros Hpc Hr Hc. unfold pl_tstep. rewrite Hpc, Hr, Hc. cbn [act_task is_do_yield fst log_ev glog]. now left.
   Qed.
 
   Definition CI (G : gstate * bk_state) (ls : nat -> local) : Prop :=
